@@ -32,21 +32,23 @@ struct R {
 static RLOG: Mutex<Vec<R>> = Mutex::new(Vec::new());
 
 struct FieldRec(Vec<(String, String)>);
+/// Values are tagged with the visitor method that delivered them (`u:`, `i:`, `b:`, `s:` typed, `d:` Debug), so
+/// that an argument recorded through `Debug` instead of as a typed value is visible.
 impl tracing_core::field::Visit for FieldRec {
     fn record_debug(&mut self, f: &tracing_core::field::Field, v: &dyn std::fmt::Debug) {
-        self.0.push((f.name().to_string(), format!("{:?}", v)));
+        self.0.push((f.name().to_string(), format!("d:{:?}", v)));
     }
     fn record_str(&mut self, f: &tracing_core::field::Field, v: &str) {
-        self.0.push((f.name().to_string(), v.to_string()));
+        self.0.push((f.name().to_string(), format!("s:{v}")));
     }
     fn record_u64(&mut self, f: &tracing_core::field::Field, v: u64) {
-        self.0.push((f.name().to_string(), v.to_string()));
+        self.0.push((f.name().to_string(), format!("u:{v}")));
     }
     fn record_i64(&mut self, f: &tracing_core::field::Field, v: i64) {
-        self.0.push((f.name().to_string(), v.to_string()));
+        self.0.push((f.name().to_string(), format!("i:{v}")));
     }
     fn record_bool(&mut self, f: &tracing_core::field::Field, v: bool) {
-        self.0.push((f.name().to_string(), v.to_string()));
+        self.0.push((f.name().to_string(), format!("b:{v}")));
     }
 }
 
@@ -167,6 +169,7 @@ struct Outcome {
     observed: Vec<(String, u64)>,
     clones: u64,
     drops: u64,
+    drop_spans: Vec<u64>,
     completed: bool,
     polls: u64,
     /// what the executor saw as current span between polls
@@ -192,6 +195,7 @@ fn finish_outcome(fx: &Arc<Fx>, o: &mut Outcome) {
     o.observed = fx.observed.lock().unwrap().clone();
     o.clones = fx.counters.clones.load(Ordering::SeqCst);
     o.drops = fx.counters.drops.load(Ordering::SeqCst);
+    o.drop_spans = fx.counters.drop_spans.lock().unwrap().clone();
 }
 
 fn run_sync(pair: &Pair, inp: &Inputs, instrumented: bool) -> Outcome {
@@ -494,6 +498,14 @@ fn oracle(pair: &Pair, inp: &Inputs, coll: &str, plain: &Outcome, inst: &Outcome
             return;
         }
     }
+    // an async body owns its arguments: whether it runs to completion, panics or is dropped half-way (the wrapper
+    // enters the span for the drop of the body), every tracked value it holds is dropped inside the call's span
+    if pair.is_async {
+        if let Some(bad) = inst.drop_spans.iter().find(|c| **c != sp.id) {
+            violation("body-outside-span", format!("pair {} [{}]: a value owned by the async body was dropped with current span {} but the call's span is {} (completed: {}, polls: {})", pair.id, pair.attrs, bad, sp.id, inst.completed, inst.polls));
+            return;
+        }
+    }
     if inst.between.iter().any(|c| *c == sp.id) {
         violation("span-leaks-outside-body", format!("pair {} [{}]: the executor observed the call's span as current between polls", pair.id, pair.attrs));
         return;
@@ -584,7 +596,7 @@ fn oracle(pair: &Pair, inp: &Inputs, coll: &str, plain: &Outcome, inst: &Outcome
                     return;
                 }
                 let e = ours[0];
-                let val = e.fields.iter().find(|x| x.0 == f).map(|x| x.1.clone());
+                let val = e.fields.iter().find(|x| x.0 == f).map(|x| x.1.get(2..).unwrap_or("").to_string());
                 if val.as_deref() != Some(want_val.as_str()) || e.level != want_level {
                     violation("ret-err-event-differs", format!("pair {} [{}]: `{}` event carries {:?} at level {}, expected {:?} at level {}", pair.id, pair.attrs, f, val, e.level, want_val, want_level));
                     return;
